@@ -7,6 +7,9 @@ mod oracles;
 mod bfs;
 mod props_paths;
 mod props_prm;
+mod props_space;
+mod lattice;
+mod rngseam;
 mod props_tree;
 mod refspace;
 mod report;
@@ -37,6 +40,7 @@ fn main() {
                 "C01" | "C02" | "C03" | "C04" | "C05" => props_paths::run(prop, tier),
                 "C15" | "C16" | "C17" => props_tree::run(prop, tier),
                 "C18" => props_prm::run(tier),
+                "C09" | "C10" | "C13" => props_space::run(prop, tier),
                 _ => usage(),
             }
         }
